@@ -148,6 +148,9 @@ func isoPlainConfigYAML(tree *SrcTree, scriptsDir string) string {
 	b.WriteString("contents:\n")
 	fmt.Fprintf(&b, "  - src: %s\n    dst: /usr/share/doc/isoplain/changelog.Debian.gz\n    type: doc\n", src("share/doc/README"))
 	fmt.Fprintf(&b, "  - src: %s\n    dst: /usr/bin/tool\n", src("bin/tool"))
+	// names an archive or a file list has to quote (blank, non-ASCII, number sign)
+	fmt.Fprintf(&b, "  - src: %s\n    dst: \"/opt/iso plain/t o o l #1\"\n", src("bin/tool"))
+	fmt.Fprintf(&b, "  - src: /opt/iso plain/t o o l\n    dst: \"/opt/iso plain/lïnk to it\"\n    type: symlink\n")
 	fmt.Fprintf(&b, "  - src: %s\n    dst: /etc/app/app.conf\n    type: config|noreplace\n", src("etc/app.conf"))
 	fmt.Fprintf(&b, "  - src: %s\n    dst: /usr/share/doc/isoplain/README.rpm\n    packager: rpm\n    type: readme\n", src("share/doc/README"))
 	b.WriteString("  - dst: /var/lib/isoplain\n    type: dir\n    file_info:\n      owner: app\n")
